@@ -2,6 +2,9 @@ module verif/harness
 
 go 1.14
 
-require github.com/tjfoc/gmsm v0.0.0
+require (
+	github.com/tjfoc/gmsm v0.0.0
+	golang.org/x/crypto v0.0.0-20201012173705-84dcc777aaee
+)
 
 replace github.com/tjfoc/gmsm => /repo
